@@ -13,7 +13,7 @@ for f in ("patch.diff", "seed_demo.rs", "NOTES.md"):
 crate = {"C17": "linear-hashtbl", "C19": "oxidd-ffi-c"}.get(prop, "oxidd")
 feat = " --features tdd" if prop == "C11" else ""
 meta = {"property": prop, "what": what, "needs_to_manifest": needs,
-        "origin": "independent sub-agent (second round) given only the property text, a scratch worktree and the name of the function changed by the first-round seed (to avoid)",
+        "origin": "independent sub-agent (later round) given only the property text, a scratch worktree and the names of the functions changed by earlier seeds (to avoid)",
         "demo_placement": "crates/%s/tests/seed_demo.rs" % crate,
         "demo_cmd": "cargo test -p %s%s --test seed_demo --offline" % (crate, feat),
         "confirmed": {"repo_head": c["repo_head"], "patch_applies": True, "demo_without_patch": "pass",
